@@ -417,8 +417,18 @@ def run(ctx):
     for name, wat in M.extra_scenarios(rng, quick):
         jobs.append(("scenario", name, wat))
 
+    def do_safe(job):
+        """a failing step of one module is a result for that module, never an uncaught exception"""
+        try:
+            return do(job)
+        except Exception as e:        # (vlib.InfraError of one module included: reported, the other modules still count)
+            import traceback
+            ctx.proof["broken"].append({"theorem": "module pipeline %s %s" % (job[0], job[1]),
+                                        "why": "%s: %s | %s" % (type(e).__name__, e, traceback.format_exc()[-400:])})
+            return job, 0, []
+
     with cf.ThreadPoolExecutor(16) as ex:
-        results = list(ex.map(do, jobs))
+        results = list(ex.map(do_safe, jobs))
     counts = {"grid_cases": 0, "trap_cases": 0, "scenario_lines": 0, "modules": len(jobs)}
     for job, n, f in results:
         if job[0] == "grid":
@@ -445,28 +455,38 @@ def run(ctx):
     dist.update(counts)
     dist["t_grid_s"] = round(time.time() - t0, 1)
 
+    def guard(what, fn):
+        """no phase may end the check with an exception: it is reported as a broken obligation and the other phases still run"""
+        try:
+            fn()
+        except Exception as e:
+            import traceback
+            ctx.proof["broken"].append({"theorem": "check phase: " + what, "why": "%s: %s | %s" % (type(e).__name__, e, traceback.format_exc()[-500:])})
+
     # ---- 3. the Lean witnesses of the false full-strength statements, replayed on the real ELF (must still fail there)
-    for row, ops, expect_cls in T.WITNESSES:
-        n, f, _ = run_numeric(ctx, B, row, [ops], inline=True)
-        if not f:
-            ctx.proof["broken"].append({"theorem": "witness replay %s" % row,
-                                        "why": "Lean proves the template for %s wrong on %s, but the real executable now agrees with WebAssembly: model or extractor out of date" % (row, ops)})
-        for key, what, replay in f:
-            ctx.violation(key, what, replay)
+    def witnesses():
+        for row, ops, expect_cls in T.WITNESSES:
+            n, f, _ = run_numeric(ctx, B, row, [ops], inline=True)
+            if not f:
+                ctx.proof["broken"].append({"theorem": "witness replay %s" % row,
+                                            "why": "Lean proves the template for %s wrong on %s, but the real executable now agrees with WebAssembly: model or extractor out of date" % (row, ops)})
+            for key, what, replay in f:
+                ctx.violation(key, what, replay)
+    guard("witness replay", witnesses)
 
     # ---- 4. correspondence: Lean x86 model + regenerated templates vs the real CPU (outputs of the inline grid)
     model = ctx.build_model("c02")
     if model:
-        T.model_correspondence(ctx, model, tinfo, grid_native, dist)
+        guard("model correspondence", lambda: T.model_correspondence(ctx, model, tinfo, grid_native, dist))
     # ---- 4b. the template text vs the machine code in the linked ELF (objdump)
-    T.objdump_crosscheck(ctx, B, tinfo, dist)
+    guard("objdump cross-check", lambda: T.objdump_crosscheck(ctx, B, tinfo, dist))
 
     # ---- 5. the self-developed assembler + ELF linker on the same assembly text (used instead of gcc on other hosts)
-    selfasm(ctx, B, h, dist)
+    guard("self-developed assembler", lambda: selfasm(ctx, B, h, dist))
 
     # ---- 6. whole programs
     from extract import c02_progs as P
-    P.run_programs(ctx, B, h, wa, dist, samples, nontrivial)
+    guard("whole programs", lambda: P.run_programs(ctx, B, h, wa, dist, samples, nontrivial))
 
     dist["t_total_s"] = round(time.time() - t0, 1)
     dist["finding_keys_seen"] = sorted(set(allfound))[:80]
